@@ -11,5 +11,6 @@ CONSTANTS
   Lease = 1
   MaxRec = 0
   Bug = {}
+VIEW McView
 INVARIANTS TypeOK ResumeOnlySameTriple FailureDropsEverything NoRouteToDeadSession
 CHECK_DEADLOCK FALSE
